@@ -1,126 +1,24 @@
 // C16 harness, part 2: amgcl::static_matrix<Q,N,M> arithmetic (N, M <= 4) at the exact rational type Q.
-// Ops (the same text is fed to the Lean model, lean/Amgcl/Driver/Direct.lean):
-//   direct_sm_lin N M c a b | direct_sm_mul N P M a b | direct_sm_assoc N P M L a b c | direct_sm_distrib N P M a b c | direct_sm_inner N M x y | direct_sm_inverse N a
-// Oracles: entrywise / dense recomputation and the matrix algebra identities, evaluated with the real operators.
-#include "direct_common.hpp"
-#include <amgcl/value_type/static_matrix.hpp>
-#include <amgcl/detail/inverse.hpp>
-using namespace vh;
-
-// ------------------------------------------------------------------ static matrices
-template <int Lo, int Hi, class F> static void dispatch(long n, F &&f) {
-    if constexpr (Lo > Hi) { (void)n; (void)f; throw bad_input("dim"); }
-    else { if (n == Lo) f(std::integral_constant<int, Lo>()); else dispatch<Lo + 1, Hi>(n, f); }
-}
-template <int N, int M> static amgcl::static_matrix<Q,N,M> parse_sm(Cur &c) { amgcl::static_matrix<Q,N,M> a; for (int i = 0; i < N * M; ++i) a(i) = c.rat(); return a; }
-template <int N, int M> static void print_sm(Line &l, const amgcl::static_matrix<Q,N,M> &a) { for (int i = 0; i < N * M; ++i) l << a(i); }
-template <int N, int M> static bool sm_eq(const amgcl::static_matrix<Q,N,M> &a, const amgcl::static_matrix<Q,N,M> &b) { for (int i = 0; i < N * M; ++i) if (!qeq(a(i), b(i))) return false; return true; }
-template <int N, int M> static Dense sm_dense(const amgcl::static_matrix<Q,N,M> &a) { Dense D(N, std::vector<Q>(M)); for (int i = 0; i < N; ++i) for (int j = 0; j < M; ++j) D[i][j] = a(i, j); return D; }
-template <int N, int M> static bool sm_eq_dense(const amgcl::static_matrix<Q,N,M> &a, const Dense &D) { for (int i = 0; i < N; ++i) for (int j = 0; j < M; ++j) if (!qeq(a(i,j), D[i][j])) return false; return true; }
-
-static Result run_sm(const std::string &op, Cur &c) {
-    Result r; r.nontrivial = true; r.tag(op);
-    namespace m = amgcl::math;
-    if (op == "direct_sm_lin") {
-        long N = c.nat(), M = c.nat();
-        dispatch<1,4>(N, [&](auto n_) { dispatch<1,4>(M, [&](auto m_) {
-            constexpr int N = decltype(n_)::value, M = decltype(m_)::value; typedef amgcl::static_matrix<Q,N,M> SM;
-            Q s = c.rat(); SM a = parse_sm<N,M>(c), b = parse_sm<N,M>(c); c.expect_end();
-            SM sum = a + b, dif = a - b, sc = s * a, ng = -a; auto ad = m::adjoint(a); bool z = m::is_zero(a); Q nrm = m::norm(a);
-            for (int i = 0; i < N; ++i) for (int j = 0; j < M; ++j) {
-                if (!qeq(sum(i,j), a(i,j) + b(i,j))) r.fail("a+b entrywise"); if (!qeq(dif(i,j), a(i,j) - b(i,j))) r.fail("a-b entrywise");
-                if (!qeq(sc(i,j), s * a(i,j))) r.fail("c*a entrywise"); if (!qeq(ng(i,j), Q(0) - a(i,j))) r.fail("-a entrywise");
-                if (!qeq(ad(j,i), a(i,j))) r.fail("adjoint entrywise"); }
-            if (!sm_eq(sum - b, a)) r.fail("(a+b)-b != a"); if (!sm_eq(m::adjoint(ad), a)) r.fail("adjoint(adjoint(a)) != a");
-            if (!sm_eq(s * (a + b), s * a + s * b)) r.fail("c*(a+b) != c*a + c*b"); if (!sm_eq(a + b, b + a)) r.fail("a+b != b+a");
-            if (!sm_eq(a + ng, m::zero<SM>())) r.fail("a + (-a) != 0");
-            Q fro(0); for (int i = 0; i < N * M; ++i) fro += a(i) * a(i); if (!qeq(nrm, vq::sqrt(fro))) r.fail("norm != sqrt(sum a_i^2)");
-            Line l; print_sm(l, sum); print_sm(l, dif); print_sm(l, sc); print_sm(l, ng); print_sm(l, ad); l << z << nrm; r.out = l.get();
-        }); });
-    } else if (op == "direct_sm_mul") {
-        long N = c.nat(), P = c.nat(), M = c.nat();
-        dispatch<1,4>(N, [&](auto n_) { dispatch<1,4>(P, [&](auto p_) { dispatch<1,4>(M, [&](auto m_) {
-            constexpr int N = decltype(n_)::value, P = decltype(p_)::value, M = decltype(m_)::value;
-            auto a = parse_sm<N,P>(c); auto b = parse_sm<P,M>(c); c.expect_end();
-            auto ab = a * b; auto abt = m::adjoint(ab);
-            if (!sm_eq_dense(ab, dmul(sm_dense(a), sm_dense(b)))) r.fail("a*b != dense product");
-            if (!sm_eq(abt, m::adjoint(b) * m::adjoint(a))) r.fail("(ab)^T != b^T a^T");
-            if constexpr (N == P) if (!sm_eq(m::identity<amgcl::static_matrix<Q,N,N>>() * b, b)) r.fail("I*b != b");
-            if constexpr (P == M) if (!sm_eq(a * m::identity<amgcl::static_matrix<Q,M,M>>(), a)) r.fail("a*I != a");
-            Line l; print_sm(l, ab); print_sm(l, abt); r.out = l.get();
-        }); }); });
-    } else if (op == "direct_sm_assoc") {
-        long N = c.nat(), P = c.nat(), M = c.nat(), L = c.nat();
-        auto body = [&](auto n_, auto p_, auto m_, auto l_) {
-            constexpr int N = decltype(n_)::value, P = decltype(p_)::value, M = decltype(m_)::value, L = decltype(l_)::value;
-            auto a = parse_sm<N,P>(c); auto b = parse_sm<P,M>(c); auto d = parse_sm<M,L>(c); c.expect_end();
-            auto lhs = (a * b) * d; auto rhs = a * (b * d);
-            if (!sm_eq(lhs, rhs)) r.fail("(ab)c != a(bc)");
-            Line l; print_sm(l, lhs); print_sm(l, rhs); r.out = l.get();
-        };
-        if (N == 4 && P == 4 && M == 4 && L == 4) { std::integral_constant<int,4> f; body(f, f, f, f); }
-        else dispatch<1,3>(N, [&](auto n_) { dispatch<1,3>(P, [&](auto p_) { dispatch<1,3>(M, [&](auto m_) { dispatch<1,3>(L, [&](auto l_) { body(n_, p_, m_, l_); }); }); }); });
-    } else if (op == "direct_sm_distrib") {
-        long N = c.nat(), P = c.nat(), M = c.nat();
-        dispatch<1,4>(N, [&](auto n_) { dispatch<1,4>(P, [&](auto p_) { dispatch<1,4>(M, [&](auto m_) {
-            constexpr int N = decltype(n_)::value, P = decltype(p_)::value, M = decltype(m_)::value;
-            auto a = parse_sm<N,P>(c); auto b = parse_sm<P,M>(c); auto d = parse_sm<P,M>(c); c.expect_end();
-            auto l1 = a * (b + d); auto r1 = a * b + a * d; auto l2 = a * (b - d);
-            if (!sm_eq(l1, r1)) r.fail("a(b+c) != ab+ac"); if (!sm_eq(l2, a * b - a * d)) r.fail("a(b-c) != ab-ac");
-            if (!sm_eq(m::adjoint(b + d), m::adjoint(b) + m::adjoint(d))) r.fail("(b+c)^T != b^T + c^T");
-            Line l; print_sm(l, l1); print_sm(l, r1); print_sm(l, l2); r.out = l.get();
-        }); }); });
-    } else if (op == "direct_sm_inner") {
-        long N = c.nat(), M = c.nat();
-        dispatch<1,4>(N, [&](auto n_) { dispatch<1,4>(M, [&](auto m_) {
-            constexpr int N = decltype(n_)::value, M = decltype(m_)::value;
-            auto x = parse_sm<N,M>(c); auto y = parse_sm<N,M>(c); c.expect_end();
-            auto xty = m::adjoint(x) * y;
-            if constexpr (M == 1) { Q ip = m::inner_product(x, y); if (!qeq(ip, xty(0,0))) r.fail("inner_product != x^T y"); r.out = (Line() << ip).get(); }
-            else { auto ip = m::inner_product(x, y); if (!sm_eq(ip, xty)) r.fail("inner_product != x^T y"); Line l; print_sm(l, ip); r.out = l.get(); }
-        }); });
-    } else if (op == "direct_sm_inverse") {
-        long N = c.nat();
-        dispatch<1,4>(N, [&](auto n_) {
-            constexpr int N = decltype(n_)::value; typedef amgcl::static_matrix<Q,N,N> SM;
-            SM a = parse_sm<N,N>(c); c.expect_end();
-            if (dense_rank(sm_dense(a)) < N) { r.out = "singular"; r.tag("singular"); return; }
-            SM ia = m::inverse(a);
-            if (!sm_eq(a * ia, m::identity<SM>())) r.fail("a * inverse(a) != I"); if (!sm_eq(ia * a, m::identity<SM>())) r.fail("inverse(a) * a != I");
-            Line l; print_sm(l, ia); r.out = l.get();
-        });
-    }
-    return r;
-}
+// Ops, oracles and generators: harness/direct_sm.hpp (shared with h_direct_smc.cpp, the same at std::complex<Q>).
+#include "direct_sm.hpp"
 
 static Result execute(const Toks &t) {
     Cur c(t);
     const std::string &op = t[0];
-    if (op == "direct_sm_lin" || op == "direct_sm_mul" || op == "direct_sm_assoc" || op == "direct_sm_distrib" || op == "direct_sm_inner" || op == "direct_sm_inverse") return run_sm(op, c);
+    for (auto &k : sm_kinds()) if (op == "direct_sm_" + k) return run_sm<Q>(op, k, c);
     Result r; r.out = "bad-op"; return r;
 }
-
-static void put_rats(Rng &rng, Line &l, long cnt, int zero_pct = 15) { for (long i = 0; i < cnt; ++i) l << (rng.range(0, 99) < zero_pct ? Q(0) : rng.rat(5)); }
 
 static void generate(Rng &rng, const Opts &o, std::vector<std::string> &lines) {
     const bool T = o.thorough();
     long scale = o.cases > 0 ? o.cases : (T ? 10 : 1);
-    for (long k = 0; k < 60 * scale; ++k) {
-        long N = rng.range(1, 4), P = rng.range(1, 4), M = rng.range(1, 4), L4 = rng.range(1, 4);
-        { Line l; l << "direct_sm_lin" << N << M << rng.rat(4); put_rats(rng, l, 2 * N * M); lines.push_back(l.get()); }
-        { Line l; l << "direct_sm_mul" << N << P << M; put_rats(rng, l, N * P + P * M); lines.push_back(l.get()); }
-        { long a = N, b = P, cc = M, d = L4; if (rng.coin(1, 5)) a = b = cc = d = 4; else { a = rng.range(1, 3); b = rng.range(1, 3); cc = rng.range(1, 3); d = rng.range(1, 3); }
-          Line l; l << "direct_sm_assoc" << a << b << cc << d; put_rats(rng, l, a * b + b * cc + cc * d); lines.push_back(l.get()); }
-        { Line l; l << "direct_sm_distrib" << N << P << M; put_rats(rng, l, N * P + 2 * P * M); lines.push_back(l.get()); }
-        { Line l; l << "direct_sm_inner" << N << M; put_rats(rng, l, 2 * N * M); lines.push_back(l.get()); }
-        { std::vector<Q> A(N * N); for (int tries = 0; tries < 50; ++tries) { for (auto &x : A) x = rng.coin(1, 4) ? Q(0) : rng.rat(5); if (dense_rank(rm_dense(N, N, A)) == N) break; for (long i = 0; i < N; ++i) A[i * N + i] += Q(7); }
-          if (dense_rank(rm_dense(N, N, A)) == N) { Line l; l << "direct_sm_inverse" << N; for (auto &v : A) l << v; lines.push_back(l.get()); } }
-    }
+    gen_family(rng, lines, false, 60 * scale);
     // malformed stream: both sides must answer bad-input
     lines.push_back("direct_sm_mul 5 1 1 1 1 1 1 1");            // dimension out of range
     lines.push_back("direct_sm_lin 2 2 1 1 2 3 4 1 2 3");        // too few entries
     lines.push_back("direct_sm_assoc 4 4 4 3 1 1");              // shape outside the instantiated set
     lines.push_back("direct_sm_inverse 2 1 2 3");                // too few entries
+    lines.push_back("direct_sm_adj 2 2 1 2 3 4 1 2 3");          // too few entries
 }
 
 VH_MAIN(generate, execute)
